@@ -103,10 +103,17 @@ fn bit_string_copy(
     dst_bit_position: usize,
     len: usize,
 ) -> Result<(), Error> {
-    if dst.len() * BYTE_LEN < dst_bit_position + len {
+    // checked: a length near usize::MAX must be an error as well, not an overflow
+    if dst_bit_position
+        .checked_add(len)
+        .map_or(true, |end| dst.len() * BYTE_LEN < end)
+    {
         return Err(Error::insufficient_space_in_destination_buffer());
     }
-    if src.len() * BYTE_LEN < src_bit_position + len {
+    if src_bit_position
+        .checked_add(len)
+        .map_or(true, |end| src.len() * BYTE_LEN < end)
+    {
         return Err(Error::insufficient_data_in_source_buffer());
     }
     for bit in 0..len {
@@ -146,10 +153,17 @@ pub(crate) fn bit_string_copy_bulked(
         return bit_string_copy(src, src_bit_position, dst, dst_bit_position, len);
     }
 
-    if dst.len() * BYTE_LEN < dst_bit_position + len {
+    // checked: a length near usize::MAX must be an error as well, not an overflow
+    if dst_bit_position
+        .checked_add(len)
+        .map_or(true, |end| dst.len() * BYTE_LEN < end)
+    {
         return Err(Error::insufficient_space_in_destination_buffer());
     }
-    if src.len() * BYTE_LEN < src_bit_position + len {
+    if src_bit_position
+        .checked_add(len)
+        .map_or(true, |end| src.len() * BYTE_LEN < end)
+    {
         return Err(Error::insufficient_data_in_source_buffer());
     }
 
